@@ -9,6 +9,7 @@ import (
 	"fmt"
 	"math/big"
 	"math/rand"
+	"strings"
 
 	"google.golang.org/protobuf/proto"
 	"google.golang.org/protobuf/reflect/protoreflect"
@@ -151,7 +152,11 @@ func mutate(old []byte, sp Spec, rng *rand.Rand, other []byte) ([]byte, error) {
 		b[len(b)-1] ^= 1
 		return b, nil
 	case "set":
-		return hex.DecodeString(sp.Hex)
+		h := sp.Hex
+		if i := strings.Index(h, "#"); i >= 0 {
+			h = h[:i] // "<hex>#<name>": the name is documentation only
+		}
+		return hex.DecodeString(h)
 	case "from-other":
 		if other == nil {
 			return nil, fmt.Errorf("no other message given")
@@ -209,6 +214,18 @@ func Apply(wire []byte, sp Spec, rng *rand.Rand, otherWire []byte) ([]byte, bool
 		case "clearlist":
 			changed = l.Len() > 0
 			l.Truncate(0)
+		case "setlist":
+			l.Truncate(0)
+			if sp.Hex != "" {
+				for _, h := range strings.Split(sp.Hex, ",") {
+					b, err := hex.DecodeString(h)
+					if err != nil {
+						return nil, false, err
+					}
+					l.Append(protoreflect.ValueOfBytes(b))
+				}
+			}
+			changed = true
 		default:
 			if idx < 0 || idx >= l.Len() {
 				return nil, false, fmt.Errorf("index out of range")
